@@ -23,7 +23,7 @@ RULE = (
     "constructors are enumerated completely."
 )
 ASSUMPTIONS = [
-    "errors are identified by class name (MissingBlocksizeException / OpcodeException are created per class by a metaclass)",
+    "MissingBlocksizeException / OpcodeException are created per class by a metaclass; the library raises SCSICommand's own (SCSICommand.OpcodeException, SCSICommand.MissingBlocksizeException) whatever the command class, and that is what a caller can catch: checked by name and by isinstance",
     "EXTENDED COPY type codes that the tables list but the library does not implement (NotImplementedError) are not 'unknown' and are outside this property",
 ]
 
@@ -41,6 +41,12 @@ def refused(fn, want, dev=None):
     except Exception as e:  # noqa
         got = type(e).__name__
         expect(got == want, "mismatch:wrong_error", got=got, want=want, error=repr(e)[:200])
+        if want in ("MissingBlocksizeException", "OpcodeException"):
+            # the error a caller can name: the library raises the base class's exception for every command class
+            from pyscsi.pyscsi.scsi_command import SCSICommand
+
+            expect(isinstance(e, getattr(SCSICommand, want)), "mismatch:error_not_catchable_as_SCSICommand_" + want,
+                   got="%s.%s" % (type(e).__module__, type(e).__qualname__))
     else:
         expect(False, "mismatch:not_refused", want=want, returned=type(obj).__name__)
     if dev is not None:
@@ -120,6 +126,14 @@ def check_opcode(cmd):
         native = T10.cdb_length(base.value)
         if want is None:
             refused(lambda: cmd.build(op, a), "OpcodeException")
+            # ... and on the other ways an operation code reaches a CDB: an existing command asked to
+            # encode it, and the class-level encoder
+            existing = accepted(lambda: cmd.build(base, a), "native opcode")
+            before = bytes(existing.cdb)
+            refused(lambda: existing.build_cdb(opcode=v), "OpcodeException")
+            refused(lambda: cmd.cls.marshall_cdb({"opcode": v}), "OpcodeException")
+            refused(lambda: cmd.cls.init_cdb(op), "OpcodeException")
+            expect(bytes(existing.cdb) == before, "mismatch:refused_opcode_altered_existing_cdb")
         elif want == native:
             # nearest valid input: an opcode of the group this class's layout belongs to
             c = accepted(lambda: cmd.build(op, a), "opcode %02Xh" % v)
